@@ -47,6 +47,19 @@ use crate::util::u8_from_number;
 
 const CONST_FOLD_LIMIT: usize = 10000000;
 
+thread_local! {
+    // Set while constant_fun_result compiles the helpers to evaluate a call.
+    static IN_CONSTANT_FUN_RESULT: std::cell::Cell<bool> = const { std::cell::Cell::new(false) };
+}
+
+struct ConstantFunResultGuard;
+
+impl Drop for ConstantFunResultGuard {
+    fn drop(&mut self) {
+        IN_CONSTANT_FUN_RESULT.with(|c| c.set(false));
+    }
+}
+
 /// Represents a code generator level optimization result.
 /// If revised_definition is different from the one we already have, the compiler
 /// must re-generate at least functions that depend on this one.
@@ -298,6 +311,14 @@ fn constant_fun_result(
             if !constant {
                 return None;
             }
+
+            // The program compiled below contains every helper, including the
+            // one this call may appear in, so folding constant calls again
+            // while compiling it would never finish.
+            if IN_CONSTANT_FUN_RESULT.with(|c| c.replace(true)) {
+                return None;
+            }
+            let _guard = ConstantFunResultGuard;
 
             let compiled_body = {
                 let to_compile = CompileForm {
